@@ -44,7 +44,9 @@ func (r ledgerRun) maxData(tier string) int {
 }
 
 var (
-	tx = func(l, f, t string, c, s uint64) ledger.TxSpec { return ledger.TxSpec{Label: l, From: f, To: t, Cur: c, Supp: s} }
+	tx = func(l, f, t string, c, s uint64) ledger.TxSpec {
+		return ledger.TxSpec{Label: l, From: f, To: t, Cur: c, Supp: s}
+	}
 	t1  = tx("t1", "R", "A", 6, 0)
 	t2  = tx("t2", "R", "B", 6, 0)
 	t3  = tx("t3", "A", "B", 5, 0)
@@ -99,6 +101,9 @@ var ledgerSpecs = []ledgerSpec{
 		}
 		return []ledgerRun{
 			{"concurrent-spends", ledger.Cfg{Nodes: []string{"G", "N1"}, Supply: sp(10, 0), Menu: []ledger.TxSpec{t1, t2, t3}, MaxProposeNodes: 1, Props: only("C02")}, d, 0, 0},
+			// sub-unit amounts: whole units tie, the fraction decides (5.2 received, 5.7 spent; 0.4 + 0.4 + 0.4 from an empty wallet)
+			{"fractional-amounts", ledger.Cfg{Nodes: []string{"G"}, Supply: sp(10, 0), Menu: []ledger.TxSpec{tx("fa", "R", "A", 5, 200_000_000_000_000_000), tx("fb", "A", "B", 5, 700_000_000_000_000_000),
+				tx("fc", "B", "A", 0, 400_000_000_000_000_000), tx("fd", "B", "A", 0, 400_000_000_000_000_001), t7}, Props: only("C02")}, d, 0, 0},
 			{"pay-genesis-wallet", ledger.Cfg{Nodes: []string{"G"}, Supply: sp(10, 0), Menu: []ledger.TxSpec{t1, t11, t3}, Props: only("C02")}, d, 0, 0},
 		}
 	}},
@@ -175,7 +180,10 @@ var ledgerSpecs = []ledgerSpec{
 			d = 6
 		}
 		chain := []string{"P:0:p1", "P:0:p2", "P:0:p3", "P:0:p4"}
+		// two tips with partly overlapping ancestries: G<-A<-T1 and T2(A,B) with G<-B, as two concurrently sealing nodes produce
+		forked := []string{"P:0:t1", "P:0:t3", "P:1:t2", "D:1:0", "P:1:t4", "D:0:2", "D:0:3"}
 		return []ledgerRun{
+			{"forked-tips", ledger.Cfg{Nodes: []string{"G", "N1"}, Spare: "N2", Sync: true, Supply: sp(10, 0), Menu: []ledger.TxSpec{t7}, Hidden: []ledger.TxSpec{t1, t2, t3, t4}, MaxProposeNodes: 1, Prefix: forked, Props: only("C14")}, 2, 3, 6},
 			{"truncated-sources", ledger.Cfg{Nodes: []string{"G"}, Spare: "N2", Sync: true, Supply: sp(10, 0), Menu: []ledger.TxSpec{t1, t3}, Truncate: true, Prefix: chain, Props: only("C14")}, d - 1, 2, 4},
 			{"multi-tip-sources", ledger.Cfg{Nodes: []string{"G", "N1"}, Spare: "N2", Sync: true, Supply: sp(10, 0), Menu: []ledger.TxSpec{t1, t2, t3}, Crafted: []ledger.TxSpec{tx("side", "R", "B", 1, 0)}, MaxProposeNodes: 1, Props: only("C14")}, d, 2, 4},
 		}
@@ -250,6 +258,7 @@ func ledgerMain(s ledgerSpec, args []string) int {
 		fmt.Fprintln(os.Stderr, "unknown run", fs.Arg(1))
 		return 2
 	}
+	_ = os.Stderr
 	if *replay != "" {
 		return ledgerReplay(s, runs, *replay)
 	}
